@@ -136,7 +136,7 @@ def cases(tier, rng):
     for enc in ('latin_1', 'cp500', 'cp037'):
         for blocked in (True, False):
             for custom in (False, True):
-                yield {'kind': 'many', 'n': 400 if tier == 'thorough' else 120, 'enc': enc, 'blocked': blocked, 'custom': custom, 'seed': rng.randint(0, 10 ** 6)}
+                yield {'kind': 'many', 'n': 1500 if tier == 'thorough' else 400, 'enc': enc, 'blocked': blocked, 'custom': custom, 'seed': rng.randint(0, 10 ** 6)}
     for s in range(3 if tier == 'quick' else 30):
         yield {'kind': 'interleave', 'seed': s}
 
